@@ -109,6 +109,13 @@ func c20Agree(pkt []byte, m c20Meta, what string) (typ byte, pad int, ok bool, c
 	return rt, rp, rok, ""
 }
 
+// c20EncodeUnfaithful counts cases in which the real encoder did not follow the enumerated random
+// draws (reported in the evidence, not a violation).
+var (
+	c20EncodeUnfaithful     int64
+	c20EncodeUnfaithfulNote string
+)
+
 // c20CodecRun returns ("", "") or (clause id, detail).
 func c20CodecRun(c *c20CodecCase) (id, detail string) {
 	var r [2]string
@@ -129,6 +136,7 @@ func c20CodecRunInner(c *c20CodecCase) (string, string) {
 	}
 	salt := c20CodecSalt(c, "real")
 	refPkt := c20RefEncode(c.Type, enc, salt, padding)
+	padLen := c.Pad // padding length of pkt (the enumerated one unless the encoder drew differently)
 
 	// (1) real-encode -> reference
 	pkt, err, note := c20RealEncode(c.Type, enc.real(), c.Pad, func(i int) byte { return padding[i] }, salt)
@@ -142,10 +150,30 @@ func c20CodecRunInner(c *c20CodecCase) (string, string) {
 			return "encode-error", err.Error()
 		}
 		if note != "" {
-			return "encode-draws", note
+			// the encoder did not consume its randomness the way this case enumerates it (one
+			// rand.Int(1025) for the padding length, then padding and salt bytes): HOW it draws is
+			// not a property clause. The packet it did produce is judged by the reference decoder
+			// and re-encoded by the reference from the salt and padding found in it.
+			c20EncodeUnfaithful++
+			if c20EncodeUnfaithfulNote == "" {
+				c20EncodeUnfaithfulNote = note
+			}
+			t, p, ok := c20RefDecode(c20Clone(pkt), enc)
+			if !ok || t != c.Type || p != len(pkt)-33 {
+				return "encode-not-decodable-by-reference", fmt.Sprintf("EncodePunchPacket(type %d) produced %d bytes which the reference decodes as ok=%v type=%d pad=%d", c.Type, len(pkt), ok, t, p)
+			}
+			var s8 [8]byte
+			copy(s8[:], pkt[:8])
+			mask := c20Mask(enc.Key, s8[:])
+			padding = make([]byte, p)
+			for i := range padding {
+				padding[i] = pkt[33+i] ^ mask[(25+i)%32]
+			}
+			padLen = p
+			refPkt = c20RefEncode(c.Type, enc, s8, padding)
 		}
-		if len(pkt) != 33+c.Pad {
-			return "encode-length", fmt.Sprintf("wire length %d, expected 33+%d", len(pkt), c.Pad)
+		if len(pkt) != 33+padLen {
+			return "encode-length", fmt.Sprintf("wire length %d, expected 33+%d", len(pkt), padLen)
 		}
 		if !bytes.Equal(pkt, refPkt) {
 			i := 0
@@ -199,8 +227,8 @@ func c20CodecRunInner(c *c20CodecCase) (string, string) {
 		}
 	}
 	// flips in pure padding bytes (first and last padding byte, every bit): same type, same length
-	if c.Pad > 0 {
-		for _, pos := range []int{33, 33 + c.Pad - 1} {
+	if padLen > 0 {
+		for _, pos := range []int{33, 33 + padLen - 1} {
 			for b := 0; b < 8; b++ {
 				mut := c20Clone(pkt)
 				mut[pos] ^= 1 << b
@@ -208,7 +236,7 @@ func c20CodecRunInner(c *c20CodecCase) (string, string) {
 				if clause != "" {
 					return "padding-flip-disagrees", clause
 				}
-				if !ok || t != c.Type || p != c.Pad {
+				if !ok || t != c.Type || p != padLen {
 					return "reference-self-check", "reference changes verdict on a padding flip"
 				}
 			}
@@ -240,11 +268,11 @@ func c20CodecRunInner(c *c20CodecCase) (string, string) {
 			var want bool
 			switch vi {
 			case 0:
-				want = c.Pad >= 1
+				want = padLen >= 1
 			case 2, 3:
-				want = c.Pad < 1024
+				want = padLen < 1024
 			}
-			if ok != want || (ok && t != c.Type) || (ok && vi == 0 && p != c.Pad-1) || (ok && vi >= 2 && p != c.Pad+1) {
+			if ok != want || (ok && t != c.Type) || (ok && vi == 0 && p != padLen-1) || (ok && vi >= 2 && p != padLen+1) {
 				return "reference-self-check", fmt.Sprintf("reference verdict on %q: ok=%v type=%d pad=%d", v.name, ok, t, p)
 			}
 		}
@@ -266,6 +294,13 @@ func c20CodecEnumerate(sh *evidence.Shard) {
 	p.Bounds = map[string]any{"cases": len(types) * 1025 * 3}
 	var item int64
 	viol := 0
+	defer func() {
+		if c20EncodeUnfaithful > 0 {
+			p.Count("encoder_did_not_follow_the_enumerated_draws", c20EncodeUnfaithful)
+			p.Exhaustive = false
+			p.Note("enumeration fidelity lost on the ENCODE side (not a violation): %s; the packets the encoder produced were judged by the reference decoder instead; every padding length is still covered on the decode side through reference-encoded packets", c20EncodeUnfaithfulNote)
+		}
+	}()
 	for _, typ := range types {
 		for pad := 0; pad <= 1024; pad++ {
 			for mi := 0; mi < 3; mi++ {
